@@ -214,6 +214,9 @@ class COO(SparseArray, NDArrayOperatorsMixin):  # lgtm [py/missing-equals]
                 raise ValueError("If `coords` is `COO`, then no other arguments should be provided.")
             if fill_value is not None:
                 self.fill_value = self.data.dtype.type(fill_value)
+                if self._cache is not None:
+                    # the cached results of the source carry the source's fill value
+                    self.enable_caching()
             return
 
         self._cache = None
